@@ -187,6 +187,27 @@ def replay_transform(model):
     return bad, {"what": f"sqrt transform {f.tolist()}, inverse of it {inv.transform(f).tolist()} for {a.tolist()}"}
 
 
+def replay_plot_history(model, every=2, rescale=True):
+    """Real matplotlib: plot_pseudopressure on a simulated reservoir must leave the stored field alone; a second figure
+    (raw profiles, recovery) drawn from the same object is the one a fresh object gives."""
+    import matplotlib
+    matplotlib.use("Agg")
+    import matplotlib.pyplot as plt
+    import numpy as np
+    from bluebonnet import plotting
+    from bluebonnet.flow import reservoir as rr
+    r = rr.IdealReservoir(12, 1000.0, 5000.0, None)
+    r.simulate(np.linspace(0, 1.2, 9) ** 2)
+    before = np.array(r.pseudopressure, dtype=float, copy=True)
+    fig, ax = plt.subplots()
+    plotting.plot_pseudopressure(r, every=every, rescale=rescale, ax=ax)
+    plt.close(fig)
+    after = np.asarray(r.pseudopressure, float)
+    bad = after.shape != before.shape or not np.array_equal(after, before)
+    rows = [] if not bad or after.shape != before.shape else np.nonzero(np.any(after != before, axis=1))[0].tolist()
+    return bad, {"what": f"plot_pseudopressure(every={every}, rescale={rescale}) changed reservoir.pseudopressure (rows {rows})" if bad else "the stored field is left alone", "inputs": {}}
+
+
 # ------------------------------------------------------------------ jobs
 
 def _load_plotting():
@@ -208,17 +229,27 @@ def job_profiles(job, nx, nt):
                 def run():
                     PltStub.made.clear()
                     ax = AxStub() if given_ax else None
+                    rr_ = DuckReservoir(nx, nt)          # a fresh object per path: what the figure is compared with is the field BEFORE the call
+                    before = [list(row.d) for row in rr_.pseudopressure.d]
                     if zoom:
-                        return mod.plot_pseudopressure(r, every=every, rescale=rescale, ax=ax, x_max=xm, y_max=ym)
-                    out = mod.plot_pseudopressure(r, every=every, rescale=rescale, ax=ax)
-                    return out
+                        out = mod.plot_pseudopressure(rr_, every=every, rescale=rescale, ax=ax, x_max=xm, y_max=ym)
+                    else:
+                        out = mod.plot_pseudopressure(rr_, every=every, rescale=rescale, ax=ax)
+                    after = [list(row.d) for row in rr_.pseudopressure.d] if isinstance(rr_.pseudopressure, SymArray) and rr_.pseudopressure.ndim == 2 else None
+                    changed = after is None or len(after) != len(before) or any(len(a) != len(b) or any(P(x) != P(y) for x, y in zip(a, b)) for a, b in zip(after, before))
+                    return out, changed
                 tag = f"profiles[nx={nx},nt={nt},every={every},rescale={rescale},ax={'given' if given_ax else 'created'}{',symbolic x_max / y_max' if zoom else ''}]"
                 rp = (replay_plot, {"which": "pseudopressure", "nx": nx, "nt": nt, "every": every, "rescale": rescale, "x_max": 0.5 if zoom else None})
                 for k, pr in enumerate(paths(job, run, [], max_paths=16)):
                     if pr.exc is not None:
                         job.prove(f"{tag}/raises[path{k}]", pr.pc, replay=rp, bound="any data", note=repr(pr.exc)[:80])
                         continue
-                    ax = pr.value
+                    ax, changed = pr.value
+                    if changed:
+                        job._violation(f"{tag}/plotting leaves the simulated field alone[path{k}]", {},
+                                       {"what": "plot_pseudopressure wrote to reservoir.pseudopressure", "replayer": "replay_plot_history", "replayer_kwargs": {"every": every, "rescale": rescale}}, None)
+                    else:
+                        job.record(f"{tag}/plotting leaves the simulated field alone[path{k}]", "unsat", 0.0, note="effect check on the path")
                     idx = [i for i in range(nt) if i % every == 0]
                     ok = isinstance(ax, AxStub) and len(ax.lines) == len(idx)
                     bad = []
@@ -422,7 +453,7 @@ def job_comparison(job, filt, window=None):
 
 
 # concrete replays run on the real code when the changed code uses something the engine does not model (harness.finish)
-FALLBACK = [(replay_plot, {}), (replay_plot_after_density, {}), (replay_transform, {}), (replay_comparison, {}), (replay_comparison, {"filt": True})]
+FALLBACK = [(replay_plot_history, {}), (replay_plot, {}), (replay_plot_after_density, {}), (replay_transform, {}), (replay_comparison, {}), (replay_comparison, {"filt": True})]
 
 
 def jobs(tier):
